@@ -573,6 +573,11 @@ pub fn check_c14<F: Real>(case: &Case, a: &MP, b: &MP, op: Op, run: &SweepRun<F>
                 return Err(format!("{}: prev_in_result {:?} is a right event", desc(), pt(&p)));
             }
             if let Some(ps) = seg_of(&p) {
+                // a vertical edge has no abscissa interval in common with the interior of any segment, so it is never
+                // "the result edge below" a point of this sub-segment (the library skips it and inherits its lower edge)
+                if ps.0 .0 == ps.1 .0 {
+                    return Err(format!("{}: the recorded lower result edge {:?}-{:?} is vertical, i.e. not below any interior point of the sub-segment", desc(), ps.0, ps.1));
+                }
                 // "not above where the x-ranges overlap"
                 if let Some(g) = geo_order(ps, s) {
                     if g == Ordering::Greater {
@@ -744,5 +749,99 @@ pub fn check_c15<F: Real>(a: &MP, b: &MP, op: Op, run: &SweepRun<F>, st: &mut Sw
     let subs = final_subsegments(run);
     let lefts: Vec<Ev<F>> = subs.iter().map(|(l, _)| l.clone()).collect();
     check_segment_order(&lefts, st).map_err(|m| format!("after subdivision: {}", m))?;
+    Ok(())
+}
+
+// ------------------------------------------------------------------------------------------
+// C15 at pair level: segment order on constructed pairs, including T contacts whose contact point is exactly on the
+// older segment while the floating-point intersection is not exact
+
+fn mk_left<F: Real>(s: Seg, subj: bool, id: u32) -> (Ev<F>, Ev<F>) {
+    let s = norm_seg(s);
+    let c = |p: Pt| Coord { x: F::from64(p.0), y: F::from64(p.1) };
+    let right = SweepEvent::new_rc(id, c(s.1), false, std::rc::Weak::new(), subj, true);
+    let left = SweepEvent::new_rc(id, c(s.0), true, Rc::downgrade(&right), subj, true);
+    right.set_other_event(&left);
+    (left, right)
+}
+
+/// one constructed pair: returns Err on a violation; counts what was compared
+pub fn check_segment_pair(rng: &mut crate::util::Rng, st: &mut SweepStats) -> Result<(), String> {
+    if rng.below(3) == 0 {
+        // mixed magnitudes: points (t, k*t) on a line through the origin are exactly collinear for dyadic t and a
+        // small integer k, but differences and products of such coordinates round, so the library's computed
+        // intersection point is not exact
+        let k = rng.range(-12, 12) as f64;
+        let tiny = [2.0f64.powi(-50), 2.0f64.powi(-30), 2.0f64.powi(-44), 0.0][rng.below(4) as usize];
+        let t0 = -tiny - [0.0, 0.0, 1.0, 0.125][rng.below(4) as usize];
+        let t1 = [1.0, 3.0, 0.75, 17.0][rng.below(4) as usize] + [0.0, tiny][rng.below(2) as usize];
+        let tm = [0.5, 0.25, 2.0f64.powi(-20), 0.625, tiny * 3.0][rng.below(5) as usize];
+        if !(t0 < tm && tm < t1) {
+            return Ok(());
+        }
+        let pt_on = |t: f64| if rng_swap(k) { (k * t, t) } else { (t, k * t) };
+        fn rng_swap(_k: f64) -> bool {
+            false
+        }
+        let old = (pt_on(t0), pt_on(t1));
+        let start = pt_on(tm);
+        let end = (start.0 + [1.0, 0.5, 7.0, 2.0f64.powi(-10)][rng.below(4) as usize], start.1 + (rng.range(-2000, 2000) as f64) / 64.0);
+        let new = (start, end);
+        return check_one_pair(old, new, rng.below(2) == 0, rng.below(2) == 0, st);
+    }
+    // old segment through lattice points a + k*d, k = 0..m; everything scaled by a power of two (exact)
+    let r = [7i64, 60, 5000, 3_000_000][rng.below(4) as usize];
+    let d = (rng.range(1, r), rng.range(-r, r));
+    let m = rng.range(2, 9);
+    let a = (rng.range(-r, r), rng.range(-r, r));
+    let scale = (2.0f64).powi([0, 0, -50, 20, -3][rng.below(5) as usize]);
+    let f = |p: (i64, i64)| (p.0 as f64 * scale, p.1 as f64 * scale);
+    let old = (f(a), f((a.0 + m * d.0, a.1 + m * d.1)));
+    let kind = rng.below(4);
+    let start = match kind {
+        0 | 1 => {
+            // exactly on the old segment's interior
+            let j = rng.range(1, m - 1);
+            (a.0 + j * d.0, a.1 + j * d.1)
+        }
+        2 => a, // shared left endpoint
+        _ => (a.0 + rng.range(0, m * d.0), a.1 + rng.range(-r, r)),
+    };
+    let mut end = (start.0 + rng.range(0, r), start.1 + rng.range(-r, r));
+    if end == start {
+        end.0 += 1;
+    }
+    let new = (f(start), f(end));
+    if new.0 == new.1 || lex_lt(new.1, new.0) {
+        return Ok(());
+    }
+    check_one_pair(old, new, rng.below(2) == 0, rng.below(2) == 0, st)
+}
+
+fn check_one_pair(old: Seg, new: Seg, subj_old: bool, subj_new: bool, st: &mut SweepStats) -> Result<(), String> {
+    if new.0 == new.1 || old.0 == old.1 {
+        return Ok(());
+    }
+    let rel = seg_rel(old, new);
+    if !matches!(rel, Rel::Disjoint | Rel::SharedVertex | Rel::Tee) || !lifetimes_overlap(old, new) {
+        return Ok(());
+    }
+    let (lo, _ro) = mk_left::<f64>(old, subj_old, 1);
+    let (ln, _rn) = mk_left::<f64>(new, subj_new, 2);
+    st.segment_pairs += 1;
+    let (c1, c2) = (compare_segments(&lo, &ln), compare_segments(&ln, &lo));
+    let d = || format!("segments {:?}-{:?} and {:?}-{:?} ({:?})", old.0, old.1, new.0, new.1, rel);
+    if c1 == Ordering::Equal || c2 == Ordering::Equal {
+        return Err(format!("segment order returns Equal for two distinct {}", d()));
+    }
+    if c1 != c2.reverse() {
+        return Err(format!("segment order is not antisymmetric for {}: {:?} / {:?}", d(), c1, c2));
+    }
+    if let Some(g) = geo_order(old, new) {
+        st.segment_geo_pairs += 1;
+        if g != c1 {
+            return Err(format!("segment order contradicts the vertical order of {}: cmp={:?}, geometry={:?}", d(), c1, g));
+        }
+    }
     Ok(())
 }
